@@ -150,6 +150,14 @@ def run(tier, seed):
             continue
         chk.fail(None, {'clause': 'same-child', 'expected_child': cname, 'expected_er7': want, 'got': o if not o.startswith('ok ') else
                         {'children': f[1], 'er7': vlib.unhexs(f[2]), 'read': f[3], 'delete': f[4]}, **rep}, rep)
+    # a valid spelling on a parent that does not hold the child: there is no child to delete — ChildNotFound, and nothing is created
+    dj = rng.sample(jobs, min(len(jobs), 3000 if tier == 'quick' else len(jobs)))
+    for j, o in zip(dj, vlib.pmap(impl.del_absent, dj)):
+        chk.evals += 1
+        rep = {'api': 'delattr(parent, spelling) on a fresh parent (the child is defined but absent), twice', 'version': j[0], 'parent_kind': j[1], 'parent': j[2], 'spelling': j[3]}
+        if o != 'ChildNotFound ChildNotFound':
+            chk.fail(None, {'clause': 'deleting a child that is not there raises ChildNotFound and creates nothing', 'got': o.split(' '), **rep}, rep)
+    chk.dist['deletes_of_absent_children'] = len(dj)
     for j, o in zip(neg, na):
         chk.evals += 1
         rep = {'api': 'getattr / setattr / delattr through a name that designates no child', 'version': j[0], 'parent_kind': j[1], 'parent': j[2], 'name': j[3]}
